@@ -850,6 +850,8 @@ pub fn run_c17_pragma(tier: &str, _seed: u64) -> CheckResult {
             forms.push((format!("version-in-line-comment:{}{}", op, v), format!("pragma solidity {}{} // {}\n;\n", op, v, other)));
             forms.push((format!("caret-in-block-comment:{}{}", op, v), format!("pragma solidity {}{} /* ^{} */;\n", op, v, other)));
             forms.push((format!("comment-between-keyword-and-name:{}{}", op, v), format!("pragma /* c */ solidity {}{};\n", op, v)));
+            forms.push((format!("multi-line-block-comment:{}{}", op, v), format!("pragma solidity {}{} /* was\n {} ^\n */;\n", op, v, other)));
+            forms.push((format!("slashes-inside-block-comment:{}{}", op, v), format!("pragma solidity /* see https://x.y/{} */ {}{} /* was {} // bumped ^ */;\n", other, op, v, other)));
         }
     }
     forms.push(("experimental-with-comment".into(), "pragma experimental /* 0.4.11 ^ */ ABIEncoderV2;\npragma solidity 0.8.10;\n".into()));
